@@ -176,7 +176,7 @@ fn spec(ctx: &Ctx, pressure: bool) -> SeqSpec {
         world: Default::default(),
         prefix: vec![],
         alphabet,
-        depth: if quick { 4 } else { 6 },
+        depth: if quick { 5 } else { 6 },
         allow: None,
         oracle: oracle(),
         keys: vec![1, 2, 3],
@@ -195,7 +195,7 @@ fn spec_ratio(ctx: &Ctx) -> SeqSpec {
         world: Default::default(),
         prefix: vec![put(1, 2)],
         alphabet: vec![get(1), get(2), Op::ReadAll { keys: vec![1] }, Op::ReadAll { keys: vec![2] }, del(1)],
-        depth: if ctx.quick() { 4 } else { 6 },
+        depth: if ctx.quick() { 6 } else { 6 },
         allow: None,
         oracle: oracle(),
         keys: vec![1, 2],
